@@ -108,6 +108,11 @@ func genWireOut(r *Rng, tier string, stat func(string)) []string {
 			ops = append(ops, fmt.Sprintf("C~%d~%s", code, Hex(GenBytes("text", rl, r.Intn(1000)))))
 			stat("op:close-refused")
 		}
+		if i%4 == 3 {
+			// every finished stream writer is used again (Close, Write): nothing more may reach the wire
+			cfg += " stale=1"
+			stat("stale-writer-use")
+		}
 		out = append(out, cfg+" prog="+strings.Join(ops, "|"))
 		stat("cfg:" + strings.Fields(cfg)[0] + "," + strings.Fields(cfg)[1])
 	}
@@ -235,6 +240,11 @@ func runWireOut(kv map[string]string) string {
 				e = errClass(w.Close())
 			}
 			errs = append(errs, e)
+			if kv["stale"] == "1" {
+				w.Close()
+				w.Write([]byte("late"))
+				w.Close()
+			}
 		case "P":
 			errs = append(errs, errClass(c.Ping(ctx)))
 		case "C":
